@@ -58,7 +58,8 @@ def _wrapper_source(cond, exclude_known):
              'def cond(%s) -> bool:' % ', '.join(params), '    """']
     for p in pres + ['pre: ' + x for x in cond.extra_pre]:
         lines.append('    ' + p)
-    if exclude_known:
+    inline = getattr(mod, 'INLINE_KNOWN', False)     # harness skips known findings itself (VP_EXCLUDE_KNOWN=1)
+    if exclude_known and not inline:
         lines.append('    pre: _m.%s_known(%s) is None' % (cond.func, names))
     for r in raises:
         lines.append('    ' + r)
@@ -67,7 +68,7 @@ def _wrapper_source(cond, exclude_known):
     lines += ['', 'def reach(%s) -> bool:' % ', '.join(params), '    """']
     for p in pres + ['pre: ' + x for x in cond.extra_pre]:
         lines.append('    ' + p)
-    if exclude_known:
+    if exclude_known and not inline:
         lines.append('    pre: _m.%s_known(%s) is None' % (cond.func, names))
     lines += ['    post: False', '    """', '    return _m.%s(%s)' % (cond.func, names), '']
     return '\n'.join(lines)
@@ -149,6 +150,10 @@ def _run_one(cond, exclude_known=False):
     cmd += ['--extra_plugin', PLUGIN]
     env = dict(os.environ, PYTHONPATH=ROOT + os.pathsep + REPO, PYTHONHASHSEED='0',
                PYTHONDONTWRITEBYTECODE='1', **cond.env)
+    if exclude_known:
+        env['VP_EXCLUDE_KNOWN'] = '1'
+    else:
+        env.pop('VP_EXCLUDE_KNOWN', None)
     if cond.twin:
         env['VP_TWIN'] = cond.twin
     else:
